@@ -107,20 +107,28 @@ OPTVAR_EXCLUDE = {
 }
 
 
-def option_variation_slice(prop, tier, seed, modes=None, **extra):
+def option_variation_slice(prop, tier, seed, modes=None, gen_kw=None, **extra):
+    """quick: EVERY variation (boolean flips, explicit values, halved / doubled numbers) in one allowed mode;
+    thorough: every variation in every allowed mode"""
     from . import c09
 
-    cs = c09.option_variation_cases("thorough", seed)  # the full cross product; sliced here
+    cs = c09.option_variation_cases("thorough", seed, **(gen_kw or {}))  # the full cross product (4 modes per variation); sliced here
     i = OPTVAR_PROPS.index(prop)
     n = len(OPTVAR_PROPS)
+    allowed = list(modes) if modes is not None else ["det", "auto", "he", "declared"]
     out = []
-    for j, c in enumerate(cs):
-        take = (j % n == i) if tier == "quick" else (j % 3 == i % 3)
-        if tier == "quick" and (j // n) % 3 != seed % 3:
-            take = False  # quick: a third of the share per seed (about 25 runs)
-        if not take or c["option"][0] in OPTVAR_EXCLUDE.get(prop, ()):
+    byopt = {}
+    for c in cs:
+        byopt.setdefault(tuple(c["option"]), []).append(c)
+    for j, (opt, group) in enumerate(sorted(byopt.items())):
+        if opt[0] in OPTVAR_EXCLUDE.get(prop, ()):
             continue
-        if modes is not None and c["spec"]["noise"]["mode"] not in modes:
+        group = [c for c in group if c["spec"]["noise"]["mode"] in allowed]
+        if not group:
             continue
-        out.append(dict({"spec": c["spec"], "optvar": c["option"]}, **extra))
+        # every variation for every property: one allowed mode each (rotating with seed and property) at the quick tier,
+        # every allowed mode at the thorough tier
+        take = group if tier != "quick" else [group[(j + seed + i) % len(group)]]
+        for c in take:
+            out.append(dict({"spec": c["spec"], "optvar": c["option"]}, **extra))
     return out
